@@ -29,6 +29,8 @@ THEOREMS = [
     "Lineno.reported_line_correct_rst_error_partial", "Lineno.reported_line_rst_error_plus_one",
     "Lineno.reported_line_correct_rst_error_counterexample", "Lineno.reported_line_correct_counterexample",
     "Lineno.shift", "Lineno.report_shift",
+    "Lineno.inherited_report_in_source", "Lineno.inherited_report_independent",
+    "Lineno.inherited_field_line_correct_partial", "Lineno.report_on_inheriting_object_wrong",
     "Lineno.converted_formats_in_range_partial", "Lineno.converted_formats_in_range_counterexample",
     "Lineno.every_report_counted", "Lineno.printed_is_counted", "Lineno.reachable_parse_errors_counted",
     "Lineno.exit_status_raw", "Lineno.exit_status",
@@ -390,7 +392,7 @@ def patched(log: List[Dict[str, Any]], holder: Dict[str, Any]):
         epydoc2stan.reportErrors, driver.get_system = o_re, o_gs
 
 
-def run_driver(src: str, fmt: str, wae: bool, names: List[str]) -> Dict[str, Any]:
+def run_driver(src: Any, fmt: str, wae: bool, names: List[str]) -> Dict[str, Any]:
     """one real pydoctor run; everything the checks need, as plain data"""
     from pydoctor import driver
     d = tempfile.mkdtemp(prefix="c16-")
@@ -398,9 +400,16 @@ def run_driver(src: str, fmt: str, wae: bool, names: List[str]) -> Dict[str, Any
     holder: Dict[str, Any] = {}
     out = io.StringIO()
     try:
-        path = os.path.join(d, "m.py")
-        with open(path, "w", encoding="utf-8", newline="\n") as f:
-            f.write(src)
+        if isinstance(src, dict):           # a package: {file name: text} written to <tmp>/p/
+            path = os.path.join(d, "p")
+            os.mkdir(path)
+            for fn, text in src.items():
+                with open(os.path.join(path, fn), "w", encoding="utf-8", newline="\n") as f:
+                    f.write(text)
+        else:
+            path = os.path.join(d, "m.py")
+            with open(path, "w", encoding="utf-8", newline="\n") as f:
+                f.write(src)
         args = ["--docformat", FMTS[fmt], "--html-output", os.path.join(d, "out"), "--project-name", "p"]
         if wae:
             args.append("--warnings-as-errors")
@@ -437,7 +446,7 @@ def _job(a):
     return run_driver(*a)
 
 
-def run_many(jobs: List[Tuple[str, str, bool, List[str]]], workers: int = 14) -> List[Dict[str, Any]]:
+def run_many(jobs: List[Tuple[Any, str, bool, List[str]]], workers: int = 14) -> List[Dict[str, Any]]:
     if len(jobs) < 8:
         return [run_driver(*j) for j in jobs]
     import multiprocessing as mp
@@ -543,7 +552,9 @@ def run(ctx: Ctx) -> None:
             check_against_ast(ctx, mod, src, off)
             jobs.append((src, mod["fmt"], wae, names))
             meta.append((mi, off, wae))
-    results = run_many(jobs)
+    inh_pk, inh_jobs = inherited_jobs(ctx)
+    allres = run_many(jobs + inh_jobs)          # one pool for both kinds of run
+    results, inh_results = allres[:len(jobs)], allres[len(jobs):]
 
     lit_req, lit_impl, lit_pay = [], [], []
     doc_req, doc_impl, doc_pay = [], [], []
@@ -660,6 +671,7 @@ def run(ctx: Ctx) -> None:
                 diff = [x for x in b if x not in a][:3]
                 ctx.fail("shift:not-by-k", {"source": realise(mods[mi], o0), "docformat": FMTS[mods[mi]["fmt"]], "k": o1 - o0, "differs": diff},
                          f"moving the module down by {o1 - o0} lines does not move every reported line by {o1 - o0}: {diff}")
+    stream_inherited(ctx, inh_pk, inh_jobs, inh_results)
     ctx.compare("literal", lit_req, lit_impl, lit_pay)
     ctx.compare("reports", doc_req, doc_impl, doc_pay)
     ctx.compare("report-arith", ar_req, ar_impl, ar_pay)
@@ -761,6 +773,145 @@ def oracle_exit(ctx: Ctx, inp, mod, res, entries, wae: bool) -> None:
     counted = sum(e["counted"] for e in res["log"] if e["t"] == "m" and "obj" in e)
     if counted != len(entries):
         ctx.fail("count:report-not-counted", inp, f"{len(entries)} reports but violations grew by {counted}")
+
+
+# --------------------------------------------------------------------------- inherited docstrings
+
+def gen_inherit_package(rng, fmt: str) -> Dict[str, Any]:
+    """package p: base.py holds the documented method / attribute (problems planted), a subclass in the same
+    module and Sub(Base), Sub2(Sub) in sub.py override them WITHOUT docstrings. sub.py contains no docstring."""
+    names = Names()
+    cells = layout_cells()
+    lines: List[str] = ["# base" if rng.random() < 0.5 else ""] * rng.randint(0, 6)
+    docs: List[Dict[str, Any]] = []
+
+    def add_doc(owner: str, ind: int, fullname: str, inheritors: List[str]) -> None:
+        layout = gen_layout(rng, rng.choice(cells))
+        blocks = gen_blocks(rng, fmt, owner, names, layout["raw"], layout["opening"])
+        if not any(b["constructs"] for b in blocks):      # always at least one problem
+            nm = names.new()
+            blocks[0]["lines"][0] = plant(rng, fmt, "X", nm, blocks[0]["lines"][0])
+            blocks[0]["constructs"].append(("X", 0, nm))
+        doc = {"fmt": fmt, "owner": owner, "layout": layout, "blocks": blocks, "name": fullname, "ind": ind,
+               "inheritors": inheritors}
+        src, value, starts = build_literal(doc, ind)
+        doc["str_lineno"] = len(lines) + 1
+        doc["value"] = value
+        doc["starts"] = starts
+        lines.extend(src)
+        docs.append(doc)
+
+    with_attr = rng.random() < 0.6
+    same = rng.random() < 0.7
+    lines.append("class Base:")
+    lines.append("    def m(self, a, b=2):")
+    add_doc("method", 8, "p.base.Base.m", (["p.base.Same.m"] if same else []) + ["p.sub.Sub.m", "p.sub.Sub2.m"])
+    lines.append("        return b")
+    if with_attr:
+        lines.append("    v = 1")
+        add_doc("attribute", 4, "p.base.Base.v", (["p.base.Same.v"] if same else []) + ["p.sub.Sub.v", "p.sub.Sub2.v"])
+    if same:
+        lines += [""] * rng.randint(0, 3) + ["class Same(Base):", "    def m(self, a, b=2):", "        return 0"]
+        if with_attr:
+            lines.append("    v = 3")
+    sub = ["# nothing documented here"] * rng.randint(0, 25) + ["from p.base import Base", "class Sub(Base):"]
+    sub += ["    def m(self, a, b=2):", "        return 1"] + (["    v = 2"] if with_attr else [])
+    sub += [""] * rng.randint(0, 4) + ["class Sub2(Sub):", "    def m(self, a, b=2):", "        return 2"] + (["    v = 4"] if with_attr else [])
+    files = {"__init__.py": "", "base.py": "\n".join(lines) + "\n", "sub.py": "\n".join(sub) + "\n"}
+    return {"fmt": fmt, "files": files, "docs": docs}
+
+
+FILE_IDS = {"p/base.py": 1, "p/sub.py": 2, "p/__init__.py": 3}
+
+
+def inherited_jobs(ctx: Ctx):
+    rng = ctx.rng
+    n = 160 if ctx.quick else 1600
+    pk = [gen_inherit_package(rng, "er"[i % 2]) for i in range(n)]
+    jobs = []
+    for p in pk:
+        tree = ast.parse(p["files"]["base.py"])
+        found = {nd.value.lineno: nd.value for nd in ast.walk(tree)
+                 if isinstance(nd, ast.Expr) and isinstance(nd.value, ast.Constant) and isinstance(nd.value.value, str)}
+        for d in p["docs"]:
+            if d["str_lineno"] not in found or found[d["str_lineno"]].value != d["value"]:
+                raise AssertionError("generator and CPython disagree about a literal")
+        names = [x for d in p["docs"] for x in [d["name"]] + d["inheritors"]]
+        jobs.append((p["files"], p["fmt"], rng.random() < 0.5, names))
+    return pk, jobs
+
+
+def stream_inherited(ctx: Ctx, pk, jobs, results) -> None:
+    """a docstring shown by an overriding method / attribute that has none of its own: every report must stay in the
+    file and on the line of the docstring at fault"""
+    reqs, impls, pay = [], [], []
+    for p, job, res in zip(pk, jobs, results):
+        fmt = p["fmt"]
+        inp = {"files": p["files"], "docformat": FMTS[fmt], "warnings_as_errors": job[2]}
+        ctx.count("inherit:packages")
+        if not isinstance(res["rc"], int):
+            ctx.fail("run-aborted:" + str(res["rc"]).split(":")[0], inp, f"driver.main ended with {res['rc']}")
+            continue
+        entries = report_entries(res)
+        # what the user sees must be what was logged
+        seen = sorted(m.group(1, 2) for m in (re.match(r"^(p/\w+\.py):(\d+|\?\?\?): ", l) for l in res["stdout"].split("\n")) if m)
+        if seen != sorted((e["path"], e["line"]) for e in entries):
+            ctx.disagree("stdout-vs-log", inp, str(sorted((e["path"], e["line"]) for e in entries))[:300], str(seen)[:300])
+        for doc in p["docs"]:
+            family = [doc["name"]] + doc["inheritors"]
+            missing = [x for x in family if x not in res["objs"]]
+            if missing:
+                ctx.disagree("object-missing", inp, str(missing), "not in system.allobjects")
+                continue
+            for x in doc["inheritors"]:
+                if res["objs"][x]["doc"] is not None:
+                    raise AssertionError("generated inheritor has a docstring of its own: " + x)
+            mine = [e for e in entries if e["obj"] in family]
+            sl = doc["str_lineno"]
+            span = (sl, sl + doc["value"].count("\n"))
+            nprob = sum(len(b["constructs"]) for b in doc["blocks"])
+            ctx.case("inherit|%s|%s|%s|%d" % (fmt, doc["owner"], enc(doc["value"]), len(doc["inheritors"])), True,
+                     {"docformat": FMTS[fmt], "inherited": doc["name"], "shown_by": doc["inheritors"], "files": p["files"]}
+                     if ctx.dist.get("inherit:docstrings", 0) < 1 else None)
+            ctx.count("inherit:docstrings")
+            ctx.count("inherit:owner:" + doc["owner"])
+            # ---- correspondence: set of (file, line, class) over the whole family
+            cons = ["%s:%d:%d" % (cls, st, j) for b, st in zip(doc["blocks"], doc["starts"]) for cls, j, nm in b["constructs"]]
+            inh = ",".join("%d.%d" % (FILE_IDS["p/" + x.split(".")[1] + ".py"], res["objs"][x]["ln"]) for x in doc["inheritors"])
+            reqs.append("lineno inherit %s 1 %d %d %s %s %s" % (fmt, res["objs"][doc["name"]]["ln"], sl, enc(doc["value"]), inh or "-", " ".join(cons)))
+            impls.append(" ".join(sorted({"%s:%s:%s" % (FILE_IDS.get(e["path"], 9), e["line"], e["kind"]) for e in mine})))
+            pay.append({**inp, "object": doc["name"], "inheritors": doc["inheritors"]})
+            # ---- direct oracle
+            where = f"{FMTS[fmt]} docstring of {doc['name']} (p/base.py lines {span[0]}-{span[1]}), shown by {', '.join(doc['inheritors'])}"
+            for e in mine:
+                if e["path"] != "p/base.py":
+                    ctx.fail("file:inherited-docstring:reported-in-other-file",
+                             {**inp, "object": doc["name"], "reported_on": e["obj"], "message": e["msg"][:200]},
+                             f"{where}: reported as {e['path']}:{e['line']} (on {e['obj']}) - that file contains no docstring: {e['descr'][:60]}")
+                elif e["obj"] != doc["name"] and e["line"].isdigit() and not (span[0] <= int(e["line"]) <= span[1] + 1):
+                    ctx.fail("line:inherited-docstring:outside-docstring",
+                             {**inp, "object": doc["name"], "reported_on": e["obj"], "message": e["msg"][:200]},
+                             f"{where}: reported on line {e['line']} (on {e['obj']}), outside the docstring: {e['descr'][:60]}")
+            exp = expected_reports(doc, 0)
+            inbase = [e for e in mine if e["path"] == "p/base.py"]
+            uniq = sorted({(e["line"], e["kind"], e["name"]) for e in inbase})
+            oracle_er(ctx, {**inp, "source": p["files"]["base.py"]}, fmt, doc, exp, uniq, span)
+            # each planted problem is reported in the docstring's own file (epytext: a fatal markup error
+            # makes pydoctor fall back to plain text, only the errors are reported then)
+            fatal = fmt == "e" and any(c == "E" for c, _, _, _ in exp)
+            got = {(k, nm) for _, k, nm in uniq}
+            nerr = sum(1 for _, k, _ in uniq if k == "E")
+            for cls, nm, first, own in exp:
+                if cls == "E":
+                    continue
+                if not fatal and (cls, nm) not in got:
+                    ctx.fail("inherited-docstring:planted-problem-not-reported-in-its-file:" + cls,
+                             {**inp, "object": doc["name"], "planted": [cls, nm, first]},
+                             f"{where}: {cls} '{nm}' planted on line {first} is not reported in p/base.py")
+            if nerr < len({first for c, _, first, _ in exp if c == "E"}):
+                ctx.fail("inherited-docstring:planted-problem-not-reported-in-its-file:E",
+                         {**inp, "object": doc["name"]}, f"{where}: a planted markup error is not reported in p/base.py")
+    ctx.compare("inherited", reqs, impls, pay)
 
 
 # --------------------------------------------------------------------------- small exhaustive API streams
@@ -892,6 +1043,28 @@ def stream_sys_api(ctx: Ctx) -> None:
 
 def replay(ctx: Ctx, obj) -> int:
     inp = obj.get("input") or obj.get("request") or {}
+    if "files" in inp:      # inherited-docstring case: a package
+        fmt = {v: k for k, v in FMTS.items()}[inp.get("docformat", "restructuredtext")]
+        res = run_driver(inp["files"], fmt, bool(inp.get("warnings_as_errors")), [])
+        for fn, text in inp["files"].items():
+            if text:
+                print("== p/" + fn)
+                for i, l in enumerate(text.split("\n"), 1):
+                    print("%3d| %s" % (i, l))
+        print("exit status:", res["rc"])
+        bad = False
+        for e in report_entries(res):
+            flag = "" if e["path"] == "p/base.py" else "   <-- file without any docstring"
+            bad = bad or bool(flag)
+            print("reported  : %s:%s on %s  %s %s%s" % (e["path"], e["line"], e["obj"], e["kind"], e["name"], flag))
+        for k in ("object", "reported_on", "message", "planted"):
+            if k in inp:
+                print("%-10s: %s" % (k, inp[k]))
+        print("recorded  :", obj.get("what", ""))
+        rec = str(inp.get("message", "")).split("\n")[0]
+        still = bad or (bool(rec) and rec in res["stdout"])
+        print("now       :", "reproduced: property violated" if still else "not reproduced on this tree")
+        return 1 if still else 0
     if "source" in inp:
         fmt = {v: k for k, v in FMTS.items()}[inp.get("docformat", "restructuredtext")]
         res = run_driver(inp["source"], fmt, bool(inp.get("warnings_as_errors")), [])
